@@ -99,7 +99,12 @@ def run_case(case):
         return r.bad(f'C11/save-load-raised/{type(e).__name__}', f'{e!r} :: {text}')
     ex = L.expand(sch)
     words = G.name_alphabet(sch)
-    names = G.all_names(words, 4)
+    longest = max((len(ch.items) for chains in ex.values() for ch in chains), default=0)
+    names = G.all_names(words, min(4, longest + 1))
+    if longest + 1 < 4:
+        # nothing can match a longer name: a sample of them is enough
+        extra = G.all_names(words[:3], 4)
+        names += [n for i, n in enumerate(extra) if len(n) > longest + 1 and i % 3 == case.get('style', 0) % 3]
     n_match = n_nomatch = 0
     digest = T.enc_tlv(1, b'\x07' * 32)
     for i, name in enumerate(names):
@@ -142,10 +147,14 @@ def _showset(s):
     return sorted((rn, sorted((k, v.hex()) for k, v in b)) for rn, b in s)[:3]
 
 
-def _case():
-    return st.fixed_dictionaries({'schema': G.schema(), 'style': st.integers(0, 5)})
+def _case(mode='base'):
+    return st.fixed_dictionaries({'schema': G.schema(mode=mode), 'style': st.integers(0, 5)})
 
 
 SUBCHECKS = {
-    'schemas': SubCheck(run_case, strategy=lambda tier: _case(), examples={'quick': 1000, 'thorough': 20000}),
+    'schemas': SubCheck(run_case, strategy=lambda tier: _case('base'), examples={'quick': 800, 'thorough': 16000}),
+    'schemas-family': SubCheck(run_case, strategy=lambda tier: _case('family'), examples={'quick': 600, 'thorough': 12000},
+                               note='redefinitions with identical name pattern, sibling rules sharing a prefix, rules referenced twice'),
+    'schemas-many-patterns': SubCheck(run_case, strategy=lambda tier: _case('many'), examples={'quick': 250, 'thorough': 5000},
+                                      note='14 pattern names: pattern numbers reach two digits'),
 }
